@@ -90,7 +90,7 @@ class ExecExpr(ExecCore):
             return sv
         if isinstance(v, dict):
             items = [(self.lift_py(k, st), self.lift_py(x, st)) for k, x in v.items()]
-            sv = new_dict(st, items)
+            sv = new_dict(st, items, infer_values=True)
             sv.py, sv.has_py = v, True
             return sv
         if isinstance(v, type):
@@ -123,7 +123,7 @@ class ExecExpr(ExecCore):
                         and all(isinstance(x, type) for x in payload.values()):
                     # a table from constants to classes is finite ground data: lifted exactly
                     items = [(const_sv(k), self.lift_py(x, st)) for k, x in payload.items()]
-                    sv = new_dict(st, items)
+                    sv = new_dict(st, items, infer_values=True)
                     sv.py, sv.has_py = payload, True
                     return sv
                 a = z3.Int('g_' + q.replace(':', '_').replace('.', '_'))
@@ -495,6 +495,9 @@ class ExecExpr(ExecCore):
             if isinstance(n.op, ast.Not):
                 out.append((c, SV(VBool(Not(truthy(c, v))), Ty.BOOL)))
             elif isinstance(n.op, ast.USub):
+                if v.has_py and isinstance(v.py, int):
+                    out.append((c, const_sv(-v.py)))
+                    continue
                 if not isinstance(v.ty, (Ty.TInt, Ty.TBool)):
                     raise Unsupported('unary minus on %r' % (v.ty,))
                 out.append((c, SV(VInt(-int_of(v)), Ty.INT)))
